@@ -503,7 +503,7 @@ func runC04(w *World, r *Report) {
 			r.Check(got == want, "C04.helper-slots-typed-by-their-side", fmt.Sprintf("newGenericHelper: slot %s #%d filled from %s", slot, n, origin(inst).Name()), st.Pos(), "instantiated over "+want, "instantiated over "+got+" where the slot belongs to the "+want+" side: the value half and the stream half of the run-time check disagree about the type — Invoke passes the check, Stream / Collect / Transform re-pack the stream as a reader of the wrong type ('impossible' panic in toGenericRunnable, or 'unexpected input type … *schema.StreamReader[…]' behind a pass-through) whenever the owner has I != O")
 		})
 		if n < 10 {
-			undecidedf("C04.helper-slots-typed-by-their-side: only %d generic instances stored by newGenericHelper", n)
+			r.Deferred = append(r.Deferred, fmt.Sprintf("C04.helper-slots-typed-by-their-side: only %d generic instances stored by newGenericHelper", n))
 		}
 	}
 
